@@ -76,52 +76,58 @@ def small_spec(rng, kind, bits, subset, level, name):
 
 
 # --------------------------------------------------------------------------- the fingerprint part
-def part_fingerprint(ctx):
-    rng = ctx.rng
-    cases, payloads, mexpr = [], {}, {}
-    found = [False]
-    dist = {'fold_cases': 0, 'exhaustive_sources': 0, 'sampled_sources': 0, 'two_step_checks': 0, 'rejections': 0,
-            'option_cases': 0, 'stale_result_checks': 0, 'by_kind': {}, 'by_method': {0: 0, 1: 0}, 'collisions': 0,
-            'bits_seen': set()}
+class Runner(object):
+    """Builds the cases of the fingerprint part (implementation run now, model comparison deferred to `compare`).
+    Every payload carries a `replay` entry from which `replay()` re-runs exactly that case."""
 
-    def add_case(key, expr, payload, model_out):
-        cases.append((key, expr))
-        payloads[key] = payload
-        mexpr[key] = model_out
+    def __init__(self, ctx):
+        self.ctx = ctx
+        self.cases, self.payloads, self.mexpr = [], {}, {}
+        self.found = False
+        self.dist = {'fold_cases': 0, 'exhaustive_sources': 0, 'sampled_sources': 0, 'negative_or_large_sources': 0, 'two_step_checks': 0,
+                     'rejections': 0, 'option_cases': 0, 'stale_result_checks': 0, 'by_kind': {}, 'by_method': {0: 0, 1: 0},
+                     'collisions': 0, 'bits_seen': set()}
 
-    def fail(what, payload, key=None):
-        found[0] = True
-        ctx.fail(what, payload, finding_key=key)
+    def add_case(self, key, expr, payload, model_out):
+        self.cases.append((key, expr))
+        self.payloads[key] = payload
+        self.mexpr[key] = model_out
 
-    def fold_case(tag, spec, nb, method):
+    def fail(self, what, payload, key=None):
+        self.found = True
+        self.ctx.fail(what, payload, finding_key=key)
+
+    def fold_case(self, tag, spec, nb, method):
         """One fold on a fresh source: result, both index maps, source unchanged, repeat call equal."""
+        ctx, dist = self.ctx, self.dist
+        rp = {'type': 'fold', 'tag': tag, 'spec': fpgen.spec_to_json(spec), 'nb': nb, 'method': method}
         a = build(spec)
         oa = obs(a)
         r = attempt(lambda: a.fold(nb, method))
-        pl = {'source': fpgen.obs_json(oa), 'fold_bits': nb, 'method': method}
+        pl = {'source': fpgen.obs_json(oa), 'fold_bits': nb, 'method': method, 'replay': rp}
         la = lit(oa)
-        key = '%s/fold/%d' % (tag, len(cases))
+        key = '%s/fold/%d' % (tag, len(self.cases))
         if r[0] == 'err':
-            add_case(key, 'result_eqb fp_obs_eqb (fp_fold %s %s %s) (Raises %s)' % (la, core.zlit(nb), core.zlit(method), r[1]),
-                     dict(pl, impl=r[1]), 'fp_fold %s %s %s' % (la, core.zlit(nb), core.zlit(method)))
+            self.add_case(key, 'result_eqb fp_obs_eqb (fp_fold %s %s %s) (Raises %s)' % (la, core.zlit(nb), core.zlit(method), r[1]),
+                          dict(pl, impl=r[1]), 'fp_fold %s %s %s' % (la, core.zlit(nb), core.zlit(method)))
             dist['rejections'] += 1
             ctx.count(('rej', str(oa), nb, method), True)
             if obs(a) != oa:
-                fail('source changed by a rejected fold', dict(pl, after=fpgen.obs_json(obs(a))))
+                self.fail('source changed by a rejected fold', dict(pl, after=fpgen.obs_json(obs(a))))
             return None
         fobj = r[1]
         of = obs(fobj)
         um, fm = umap_obs(fobj.get_unfolding_index_map()), fmap_obs(a.get_folding_index_map())
         pl.update(impl=fpgen.obs_json(of), unfolding_map=um, folding_map=fm)
         if um is None or fm is None:
-            fail('fold did not record its index maps', pl)
+            self.fail('fold did not record its index maps', pl)
             um, fm = um or [], fm or []
         expr = ('let a := %s in result_eqb (fp_obs_close %s) (fp_fold a %s %s) (Ok %s) && umap_eqb (unfold_map a %s %s) %s '
                 '&& fmap_eqb (folding_map a %s %s) %s'
                 % (la, TOL, core.zlit(nb), core.zlit(method), lit(of), core.zlit(nb), core.zlit(method), umap_lit(um),
                    core.zlit(nb), core.zlit(method), fmap_lit(fm)))
-        add_case(key, expr, pl, 'let a := %s in (fp_fold a %s %s, unfold_map a %s %s, folding_map a %s %s)'
-                 % (la, core.zlit(nb), core.zlit(method), core.zlit(nb), core.zlit(method), core.zlit(nb), core.zlit(method)))
+        self.add_case(key, expr, pl, 'let a := %s in (fp_fold a %s %s, unfold_map a %s %s, folding_map a %s %s)'
+                      % (la, core.zlit(nb), core.zlit(method), core.zlit(nb), core.zlit(method), core.zlit(nb), core.zlit(method)))
         collide = len(of['idx']) < len(oa['idx'])
         dist['collisions'] += collide
         dist['fold_cases'] += 1
@@ -131,79 +137,90 @@ def part_fingerprint(ctx):
         ctx.count(('fold', str(oa), nb, method), collide and nb < oa['bits'])
         # implementation-only parts of the property
         if fobj is a:
-            fail('fold returned the source object itself', pl)
+            self.fail('fold returned the source object itself', pl)
         if obs(a) != oa:
-            fail('source fingerprint changed by fold', dict(pl, after=fpgen.obs_json(obs(a))))
+            self.fail('source fingerprint changed by fold', dict(pl, after=fpgen.obs_json(obs(a))))
         if fobj.unfold() is not a:
-            fail('linked fold result does not unfold to its source', pl)
+            self.fail('linked fold result does not unfold to its source', pl)
         again = attempt(lambda: a.fold(nb, method))
         if again[0] != 'ok' or obs(again[1]) != of or umap_obs(again[1].get_unfolding_index_map()) != um:
-            fail('second identical fold call returned a different result', dict(pl, second=str(again)))
+            self.fail('second identical fold call returned a different result', dict(pl, second=str(again)))
         if obs(fobj) != of or obs(a) != oa:
-            fail('first fold result or source changed by the second identical call', pl)
+            self.fail('first fold result or source changed by the second identical call', pl)
         return a, fobj, of
 
-    def two_step(spec, nb, mid, method):
+    def two_step(self, spec, nb, mid, method):
         """fold(mid) then fold(nb) against fold(nb), on the implementation itself (fresh sources)."""
+        rp = {'type': 'two_step', 'spec': fpgen.spec_to_json(spec), 'nb': nb, 'mid': mid, 'method': method}
         a1, a2 = build(spec), build(spec)
         o0 = obs(a1)
         r1 = attempt(lambda: obs(a1.fold(mid, method).fold(nb, method)))
         r2 = attempt(lambda: obs(a2.fold(nb, method)))
-        dist['two_step_checks'] += 1
-        ctx.count(('2step', str(o0), nb, mid, method), nb < mid < o0['bits'])
+        self.dist['two_step_checks'] += 1
+        self.ctx.count(('2step', str(o0), nb, mid, method), nb < mid < o0['bits'])
         if r1[0] != 'ok' or r2[0] != 'ok' or not obs_close(r1[1], r2[1]):
-            fail('two-step fold differs from one-step fold', {'source': fpgen.obs_json(o0), 'mid': mid, 'fold_bits': nb, 'method': method,
-                 'two_step': fpgen.obs_json(r1[1]) if r1[0] == 'ok' else r1[1],
-                 'one_step': fpgen.obs_json(r2[1]) if r2[0] == 'ok' else r2[1]})
+            self.fail('two-step fold differs from one-step fold', {'source': fpgen.obs_json(o0), 'mid': mid, 'fold_bits': nb, 'method': method,
+                      'two_step': fpgen.obs_json(r1[1]) if r1[0] == 'ok' else r1[1],
+                      'one_step': fpgen.obs_json(r2[1]) if r2[0] == 'ok' else r2[1], 'replay': rp})
         if obs(a1) != o0:
-            fail('source changed by two-step fold', {'source': fpgen.obs_json(o0), 'mid': mid, 'fold_bits': nb, 'method': method})
+            self.fail('source changed by two-step fold', {'source': fpgen.obs_json(o0), 'mid': mid, 'fold_bits': nb, 'method': method, 'replay': rp})
 
-    def option_cases(tag, spec, nb, method):
+    def option_cases(self, tag, spec, nb, method):
         """linked=False and counts_method on fresh sources (model: the same fold function / fp_fold_cm)."""
+        ctx, dist = self.ctx, self.dist
+        rp = {'type': 'options', 'tag': tag, 'spec': fpgen.spec_to_json(spec), 'nb': nb, 'method': method}
         a = build(spec)
         oa = obs(a)
         la = lit(oa)
         r = attempt(lambda: a.fold(nb, method, linked=False))
-        pl = {'source': fpgen.obs_json(oa), 'fold_bits': nb, 'method': method, 'option': 'linked=False'}
-        key = '%s/unlinked/%d' % (tag, len(cases))
+        pl = {'source': fpgen.obs_json(oa), 'fold_bits': nb, 'method': method, 'option': 'linked=False', 'replay': rp}
+        key = '%s/unlinked/%d' % (tag, len(self.cases))
         if r[0] == 'ok':
             u = r[1]
             pl['impl'] = fpgen.obs_json(obs(u))
             if u.unfold() is not None or a.folded_fingerprint:
-                fail('linked=False still linked the folded fingerprint', pl)
+                self.fail('linked=False still linked the folded fingerprint', pl)
             um = umap_obs(u.get_unfolding_index_map()) or []
-            add_case(key, 'let a := %s in result_eqb (fp_obs_close %s) (fp_fold a %s %s) (Ok %s) && umap_eqb (unfold_map a %s %s) %s'
-                     % (la, TOL, core.zlit(nb), core.zlit(method), lit(obs(u)), core.zlit(nb), core.zlit(method), umap_lit(um)),
-                     pl, 'fp_fold %s %s %s' % (la, core.zlit(nb), core.zlit(method)))
+            self.add_case(key, 'let a := %s in result_eqb (fp_obs_close %s) (fp_fold a %s %s) (Ok %s) && umap_eqb (unfold_map a %s %s) %s'
+                          % (la, TOL, core.zlit(nb), core.zlit(method), lit(obs(u)), core.zlit(nb), core.zlit(method), umap_lit(um)),
+                          pl, 'fp_fold %s %s %s' % (la, core.zlit(nb), core.zlit(method)))
         else:
             pl['impl'] = r[1]
-            add_case(key, 'result_eqb fp_obs_eqb (fp_fold %s %s %s) (Raises %s)' % (la, core.zlit(nb), core.zlit(method), r[1]),
-                     pl, 'fp_fold %s %s %s' % (la, core.zlit(nb), core.zlit(method)))
+            self.add_case(key, 'result_eqb fp_obs_eqb (fp_fold %s %s %s) (Raises %s)' % (la, core.zlit(nb), core.zlit(method), r[1]),
+                          pl, 'fp_fold %s %s %s' % (la, core.zlit(nb), core.zlit(method)))
         if obs(a) != oa:
-            fail('source changed by fold(linked=False)', pl)
+            self.fail('source changed by fold(linked=False)', pl)
         dist['option_cases'] += 1
         ctx.count(('unlinked', str(oa), nb, method), True)
         for cmname in ('sum', 'max', 'min'):
             cmc, cmf = CM[cmname]
             b = build(spec)
             r = attempt(lambda: b.fold(nb, method, counts_method=cmf))
-            pl = {'source': fpgen.obs_json(oa), 'fold_bits': nb, 'method': method, 'option': 'counts_method=' + cmname}
-            key = '%s/cm-%s/%d' % (tag, cmname, len(cases))
+            pl = {'source': fpgen.obs_json(oa), 'fold_bits': nb, 'method': method, 'option': 'counts_method=' + cmname, 'replay': rp}
+            key = '%s/cm-%s/%d' % (tag, cmname, len(self.cases))
             m = 'fp_fold_cm %s %s %s %s' % (cmc, la, core.zlit(nb), core.zlit(method))
             if r[0] == 'ok':
                 pl['impl'] = fpgen.obs_json(obs(r[1]))
-                add_case(key, 'result_eqb (fp_obs_close %s) (%s) (Ok %s)' % (TOL, m, lit(obs(r[1]))), pl, m)
+                self.add_case(key, 'result_eqb (fp_obs_close %s) (%s) (Ok %s)' % (TOL, m, lit(obs(r[1]))), pl, m)
             else:
                 pl['impl'] = r[1]
-                add_case(key, 'result_eqb fp_obs_eqb (%s) (Raises %s)' % (m, r[1]), pl, m)
+                self.add_case(key, 'result_eqb fp_obs_eqb (%s) (Raises %s)' % (m, r[1]), pl, m)
             if obs(b) != oa:
-                fail('source changed by fold(counts_method=%s)' % cmname, pl)
+                self.fail('source changed by fold(counts_method=%s)' % cmname, pl)
             dist['option_cases'] += 1
             ctx.count(('cm', cmname, str(oa), nb, method), True)
 
-    def stale_check(spec, nb, method):
-        """A result handed out earlier must keep its value whatever is folded from the same source afterwards
-        (the cache returns the same object for the same (bits, method) and CountFingerprint.fold re-assigns its counts)."""
+    def stale_check(self, spec, nb, method, order_seed):
+        """A result handed out earlier must keep its value whatever is folded from the same source afterwards, and every
+        later call must give what the same call gives on a fresh copy of the source (the cache returns the same object
+        for the same (bits, method) and CountFingerprint.fold re-assigns its counts on every call).
+
+        The known-finding key KEY_STALE is used for exactly one outcome: the object returned by the first call now shows
+        the counts of a later call on the same (bits, method) that used a DIFFERENT counts_method than the call that last
+        wrote it, that later call's own result being correct (equal to the fresh-source result), and nothing but the
+        counts having changed.  Everything else is an unkeyed violation.  All remaining calls are still checked."""
+        import random
+        rp = {'type': 'stale', 'spec': fpgen.spec_to_json(spec), 'nb': nb, 'method': method, 'order_seed': order_seed}
         a = build(spec)
         oa = obs(a)
         r = attempt(lambda: a.fold(nb, method))
@@ -212,33 +229,59 @@ def part_fingerprint(ctx):
         first = r[1]
         snap = obs(first)
         um = umap_obs(first.get_unfolding_index_map())
-        dist['stale_result_checks'] += 1
-        later = [('fold(%d, %d)' % (b2, m2), (lambda src, b2=b2, m2=m2: src.fold(b2, m2))) for b2, _ in chains(oa['bits'])[:3] for m2 in (0, 1)]
-        later.append(('fold(%d, %d, linked=False)' % (nb, method), lambda src: src.fold(nb, method, linked=False)))
+        self.dist['stale_result_checks'] += 1
+        self.ctx.count(('stale', str(oa), nb, method, order_seed), True)
+        others = sorted(set(c[0] for c in chains(oa['bits'])))
+        # (description, reducer that writes the cached (nb, method) object or None, action)
+        later = [('fold(%d, %d)' % (b2, m2), 'sum' if (b2, m2) == (nb, method) else None, (lambda src, b2=b2, m2=m2: src.fold(b2, m2)))
+                 for b2 in others[-3:] for m2 in (0, 1)]
+        later.append(('fold(%d, %d, linked=False)' % (nb, method), 'sum', lambda src: src.fold(nb, method, linked=False)))
         if oa['kind'] != 'KBit':
-            later += [('fold(%d, %d, counts_method=%s)' % (nb, method, n), (lambda src, f=f: src.fold(nb, method, counts_method=f)))
+            later += [('fold(%d, %d, counts_method=%s)' % (nb, method, n), n, (lambda src, f=f: src.fold(nb, method, counts_method=f)))
                       for n, (_, f) in CM.items()]
-        rng.shuffle(later)
-        for what, act in later:
+        random.Random(order_seed).shuffle(later)
+        later.append(('fold(%d, %d) [again, last]' % (nb, method), 'sum', lambda src: src.fold(nb, method)))   # a cache hit after all the others
+        writer = 'sum'              # reducer of the call that last wrote the cached object's counts
+        history = ['fold(%d, %d)' % (nb, method)]
+        for what, reducer, act in later:
             got = attempt(lambda: obs(act(a)))
-            # history independence: the same call on a fresh copy of the source gives the same value
-            want = attempt(lambda: obs(act(build(spec))))
-            if got[0] != want[0] or (got[0] == 'ok' and not obs_close(got[1], want[1])) or (got[0] == 'err' and got[1] != want[1]):
-                fail('%s on a source that was folded before differs from the same call on a fresh source' % what,
-                     {'source': fpgen.obs_json(oa), 'earlier_call': 'fold(%d, %d)' % (nb, method), 'call': what,
-                      'on_used_source': fpgen.obs_json(got[1]) if got[0] == 'ok' else got[1],
-                      'on_fresh_source': fpgen.obs_json(want[1]) if want[0] == 'ok' else want[1]})
-                return
+            want = attempt(lambda: obs(act(build(spec))))       # history independence: same call on a fresh copy of the source
+            history.append(what)
+            call_ok = got[0] == want[0] and (obs_close(got[1], want[1]) if got[0] == 'ok' else got[1] == want[1])
+            if not call_ok:
+                self.fail('%s on a source that was folded before differs from the same call on a fresh source' % what,
+                          {'source': fpgen.obs_json(oa), 'calls_so_far': history[:], 'call': what,
+                           'on_used_source': fpgen.obs_json(got[1]) if got[0] == 'ok' else got[1],
+                           'on_fresh_source': fpgen.obs_json(want[1]) if want[0] == 'ok' else want[1], 'replay': rp})
             now = obs(first)
-            if now != snap or umap_obs(first.get_unfolding_index_map()) != um:
-                key = KEY_STALE if 'counts_method' in what else None
-                fail('a fold result returned earlier changed after a later %s on the same source' % what,
-                     {'source': fpgen.obs_json(oa), 'first_call': 'fold(%d, %d)' % (nb, method), 'first_result': fpgen.obs_json(snap),
-                      'later_call': what, 'first_result_now': fpgen.obs_json(now)}, key=key)
-                return
+            now_um = umap_obs(first.get_unfolding_index_map())
+            if now != snap or now_um != um:
+                only_counts = all(now[k] == snap[k] for k in ('kind', 'bits', 'level', 'idx', 'name')) and now_um == um
+                known = (reducer is not None and reducer != writer and call_ok and got[0] == 'ok' and only_counts
+                         and obs_close(now, got[1]))
+                self.fail('a fold result returned earlier changed after a later %s on the same source' % what,
+                          {'source': fpgen.obs_json(oa), 'first_call': 'fold(%d, %d)' % (nb, method), 'calls_so_far': history[:],
+                           'first_result_before_this_call': fpgen.obs_json(snap), 'later_call': what, 'first_result_now': fpgen.obs_json(now),
+                           'reducer_that_last_wrote_it': writer, 'reducer_of_this_call': reducer, 'replay': rp},
+                          key=KEY_STALE if known else None)
+                snap, um = now, now_um          # judge the remaining calls one by one
+            if reducer is not None and got[0] == 'ok':
+                writer = reducer
             if obs(a) != oa:
-                fail('source changed by %s' % what, {'source': fpgen.obs_json(oa), 'later_call': what})
-                return
+                self.fail('source changed by %s' % what, {'source': fpgen.obs_json(oa), 'calls_so_far': history[:], 'later_call': what, 'replay': rp})
+                oa = obs(a)
+
+    def compare(self):
+        nbad = core.compare_cases(self.ctx, self.cases, IMPORTS, 'C07 fingerprint fold', self.payloads, model_expr=self.mexpr,
+                                  finding_key_of=lambda k, pl: 'fold:%s' % k.split('/')[1])
+        self.found = self.found or nbad > 0
+        return nbad
+
+
+def part_fingerprint(ctx):
+    rng = ctx.rng
+    R = Runner(ctx)
+    dist = R.dist
 
     # 1. exhaustive: every index subset for small lengths (incl. lengths with an odd factor), all kinds, both methods,
     #    every target length of the chain; two-step folds for every chain
@@ -255,13 +298,13 @@ def part_fingerprint(ctx):
                 dist['exhaustive_sources'] += 1
                 for method in (0, 1):
                     for nb in sorted(set(c[0] for c in chains(bits))):
-                        fold_case('ex%d' % bits, spec, nb, method)
+                        R.fold_case('ex%d' % bits, spec, nb, method)
                     for nb, mid in chains(bits):
-                        two_step(spec, nb, mid, method)
+                        R.two_step(spec, nb, mid, method)
                 if sub and rng.random() < 0.25:
                     nb = rng.choice(chains(bits))[0]
-                    option_cases('ex%d' % bits, spec, nb, rng.choice([0, 1]))
-                    stale_check(spec, nb, rng.choice([0, 1]))
+                    R.option_cases('ex%d' % bits, spec, nb, rng.choice([0, 1]))
+                    R.stale_check(spec, nb, rng.choice([0, 1]), rng.randrange(2 ** 30))
     # 2. sampled up to 2^32 (dense in the low range so that collisions happen)
     big = [16, 32, 64, 256, 1024, 1024, 4096, 2 ** 16, 2 ** 20, 2 ** 32, 2 ** 32, 24, 96, 3 * 2 ** 10, 5 * 2 ** 20]
     for n in range(ctx.n(260, 4000)):
@@ -287,38 +330,83 @@ def part_fingerprint(ctx):
         ch = chains(bits)
         method = rng.choice([0, 1])
         for nb, mid in rng.sample(ch, min(3, len(ch))):
-            fold_case('s', spec, nb, method)
-            two_step(spec, nb, mid, method)
+            R.fold_case('s', spec, nb, method)
+            R.two_step(spec, nb, mid, method)
         nb = rng.choice(ch)[0]
         if rng.random() < 0.5:
-            option_cases('s', spec, nb, rng.choice([0, 1]))
+            R.option_cases('s', spec, nb, rng.choice([0, 1]))
         if rng.random() < 0.5:
-            stale_check(spec, nb, rng.choice([0, 1]))
-    # 3. rejections: larger than the source, ratio not a power of two, zero / negative length, bad method
+            R.stale_check(spec, nb, rng.choice([0, 1]), rng.randrange(2 ** 30))
+    # 3. negative positions (the constructors reject only positions >= length) and large counts (Python ints / doubles)
+    for n in range(ctx.n(80, 800)):
+        bits = rng.choice([8, 16, 12, 1024, 2 ** 32])
+        kind = rng.choice(fpgen.KINDS)
+        pool = sorted(set([-1, -2, -3, -bits, -bits - 1, -bits + 1, -bits // 2, -1000003, 0, 1, bits // 2, bits - 1]
+                          + [rng.randrange(-2 * bits, bits) for _ in range(4)]))
+        idx = sorted(rng.sample(pool, rng.choice([1, 2, 3, 5, 8])))
+        spec = {'kind': kind, 'bits': bits, 'level': rng.choice([-1, 4, None])}
+        if kind == 'KBit':
+            spec['idx'] = idx
+        elif kind == 'KCount':
+            spec['cnt'] = {i: rng.choice([1, 3, 65535, 65536, 2 ** 31 - 1, 2 ** 31, 2 ** 40 + 7, 2 ** 63 - 1, 2 ** 64, 10 ** 18 + 3]) for i in idx}
+        else:
+            spec['cnt'] = {i: rng.choice([Fraction(1, 2), Fraction(3), Fraction(2 ** 40 + 1), Fraction(2 ** 52), Fraction(10 ** 15, 8),
+                                          Fraction(1, 2 ** 20)]) for i in idx}
+        dist['negative_or_large_sources'] += 1
+        ch = chains(bits)
+        for method in (0, 1):
+            for nb, mid in rng.sample(ch, min(2, len(ch))):
+                R.fold_case('neg', spec, nb, method)
+                R.two_step(spec, nb, mid, method)
+        if rng.random() < 0.4:
+            nb = rng.choice(ch)[0]
+            R.option_cases('neg', spec, nb, rng.choice([0, 1]))
+            R.stale_check(spec, nb, rng.choice([0, 1]), rng.randrange(2 ** 30))
+    # 4. rejections: larger than the source, ratio not a power of two, zero / negative length, bad method
     for n in range(ctx.n(60, 600)):
         bits = rng.choice([4, 8, 16, 12, 12, 24, 96, 1024, 3 * 2 ** 10, 2 ** 32])
         spec = fpgen.rand_spec(rng, bits=bits)
         bad = rng.choice([(bits * 2, 0), (bits + 1, 1), (3, 0), (bits - 1, 0), (5, 1), (bits // 2 + 1, 0), (0, 0), (-2, 0), (-bits, 1),
                           (bits // 2, 2), (bits // 4 or 1, -1), (bits, 3), (bits * 2, 2), (7, 5),
                           (bits // 3, 0), (bits // 3, 1), (bits // 6 or 1, 0), (bits // 12 or 1, 1)])   # divisors with an odd quotient
-        fold_case('rej', spec, bad[0], bad[1])
+        R.fold_case('rej', spec, bad[0], bad[1])
 
+    cases, payloads = R.cases, R.payloads
     for k in cases[:2] + cases[len(cases) // 2:len(cases) // 2 + 2] + cases[-2:]:
-        ctx.sample({'case': k[0], 'input_and_implementation_result': payloads[k[0]], 'model_check': k[1][:400]})
-    nbad = core.compare_cases(ctx, cases, IMPORTS, 'C07 fingerprint fold', payloads, model_expr=mexpr,
-                              finding_key_of=lambda k, pl: 'fold:%s' % k.split('/')[1])
+        pl = {kk: v for kk, v in payloads[k[0]].items() if kk != 'replay'}
+        ctx.sample({'case': k[0], 'input_and_implementation_result': pl, 'model_check': k[1][:400]})
+    R.compare()
     dist['bits_seen'] = sorted(dist['bits_seen'])
     ctx.coverage.setdefault('input_distribution', {})['fingerprint'] = dist
     ctx.coverage['rule'] = (ctx.coverage.get('rule', '') + ' [fingerprint part] every index subset of lengths %s (sampled above 6 in the quick tier) x 3 kinds x 2 methods x '
                             'every target length of the power-of-two chain, two-step vs one-step folds on the implementation for every chain b | a | bits, '
-                            'seeded random fingerprints up to 2^32 bits with forced collisions, options linked=False and counts_method=sum/max/min, '
-                            'rejections (too large, non power-of-two ratio, 0, negative, method not in {0,1}); a fold case is non-trivial when it really '
-                            'folds (target < length) and at least two positions collide; distinct by full input.' % small)
+                            'seeded random fingerprints up to 2^32 bits with forced collisions, negative positions and counts up to 2^64 / 2^52, '
+                            'options linked=False and counts_method=sum/max/min, histories of folds on one source object (earlier results keep their value, '
+                            'every call equals the same call on a fresh source), rejections (too large, non power-of-two ratio, 0, negative, method not in {0,1}); '
+                            'a fold case is non-trivial when it really folds (target < length) and at least two positions collide; distinct by full input.' % small)
     ctx.assumptions += ['lengths are at most 2^53 (the code tests the ratio in double precision; e3fp lengths are at most 2^32)',
                         'np.unique, % and // on int64 arrays, dict/set operations behave as modelled; exercised by the correspondence only',
                         'float sums over a fibre are compared with relative tolerance 1e-9 (summation order over a Python set is not modelled)',
                         'the fold cache is observed through results only: object identity of repeated calls is not part of the model']
-    return found[0] or nbad > 0
+    return R.found
+
+
+def replay_fingerprint(ctx, rp):
+    R = Runner(ctx)
+    spec = fpgen.spec_from_json(rp['spec'])
+    if rp['type'] == 'fold':
+        R.fold_case(rp['tag'], spec, rp['nb'], rp['method'])
+    elif rp['type'] == 'two_step':
+        R.two_step(spec, rp['nb'], rp['mid'], rp['method'])
+    elif rp['type'] == 'options':
+        R.option_cases(rp['tag'], spec, rp['nb'], rp['method'])
+    elif rp['type'] == 'stale':
+        R.stale_check(spec, rp['nb'], rp['method'], rp['order_seed'])
+    else:
+        return False
+    if R.cases:
+        R.compare()
+    return True
 
 
 PARTS = [part_fingerprint]
@@ -337,8 +425,29 @@ def run(ctx):
         core.report_broken_proof(ctx, res, found_input)
 
 
+REPLAYERS = [replay_fingerprint]
+# parts built by others may expose `replay_case(ctx, rp) -> handled(bool)` next to `part(ctx)`
+for _name in ('c07_db', 'c07_fprinter'):
+    if importlib.util.find_spec('props.' + _name) is not None:
+        _m = importlib.import_module('props.' + _name)
+        if hasattr(_m, 'replay_case'):
+            REPLAYERS.append(_m.replay_case)
+
+
 def replay(ctx, path):
+    """Re-run the recorded case on both sides; exit 1 with a VIOLATION line if it still fails."""
     import json
     d = json.load(open(path))
-    print(json.dumps(d, indent=1)[:6000])
-    return 0
+    case = d.get('case', {})
+    rp = case.get('replay') if isinstance(case, dict) else None
+    print('replaying %s: %s' % (path, d.get('what', '')[:200]))
+    if rp is None:
+        ok, res = core.proof_step(ctx)
+        if not ok:
+            core.report_broken_proof(ctx, res, False)
+        return fpgen.finish_replay(ctx, path, 'proof obligations of Properties/C07.v re-checked')
+    for rep in REPLAYERS:
+        if rep(ctx, rp):
+            return fpgen.finish_replay(ctx, path, 'case %s' % rp.get('type'))
+    print('no part of C07 knows how to replay a case of type %r' % rp.get('type'))
+    return 2
